@@ -3,6 +3,7 @@ package main
 import (
 	"bytes"
 	"encoding/json"
+	"fmt"
 
 	"github.com/jf-tech/omniparser/extensions/omniv21/fileformat"
 	"github.com/jf-tech/omniparser/extensions/omniv21/fileformat/csv"
@@ -67,12 +68,19 @@ func openDirect(format, schema string, in []byte) (next func() (*idr.Node, error
 		return nil
 	}
 	var cur *idr.Node
-	return func() (*idr.Node, error, bool) {
+	return func() (n *idr.Node, err error, cont bool) {
+		defer func() {
+			// a reader that panics when Read is called again after its terminal result: that is for
+			// the no-panic property to judge; here the audit of the node pool goes on
+			if p := recover(); p != nil {
+				n, err, cont = nil, fmt.Errorf("panic in FormatReader.Read: %v", p), false
+			}
+		}()
 		if cur != nil {
 			rd.Release(cur)
 			cur = nil
 		}
-		n, err := rd.Read()
+		n, err = rd.Read()
 		if n != nil {
 			cur = n
 		}
